@@ -41,7 +41,7 @@ constexpr uint64_t kInf = ~0ULL;
 
 struct Cover {
     uint64_t histories = 0, ops = 0, notifies = 0, notifiesWithCallbacks = 0, callbacks = 0, subscribes = 0, unsubscribes = 0, shrinks = 0, existsCalls = 0, depthCalls = 0;
-    uint64_t fastCases = 0, fastOps = 0, fastThrows = 0;
+    uint64_t fastCases = 0, fastOps = 0, fastThrows = 0, fastStale = 0;
     uint64_t linHistories = 0, linOps = 0, linNodes = 0, linInconclusive = 0, linWithOverlap = 0;
     uint64_t writesOverlappingNotify = 0, snapshotsJudged = 0, snapshotsWithConcurrentWrite = 0, missedJudged = 0, maxThreads = 0, nontrivialCases = 0;
     std::vector<uint64_t> fps;
@@ -604,7 +604,7 @@ void runFastCase(uint64_t c, rt::Rng rng) {
     const std::vector<int> E = {4};                         // /e
     static thread_local bool tlsThrow = false;
     USubscription thrower = router->subscribe(build(E), []() { if (tlsThrow) throw Boom{}; });
-    std::atomic<uint64_t> thrown{0};
+    std::atomic<uint64_t> thrown{0}, stale{0};
     std::vector<std::thread> th;
     for (int w = 0; w < writers; ++w)
         th.emplace_back([&, w, seed = rng.next()] {
@@ -622,6 +622,25 @@ void runFastCase(uint64_t c, rt::Rng rng) {
                 if (ret != 1 || o.cbs.size() != 1 || o.cbs[0].obs != id) report("writer " + std::to_string(w) + ": notify of its own key " + patStr(key) + " returned " + std::to_string(ret) + " and reached " + std::to_string(o.cbs.size()) + " observer(s)");
                 if (!router->exists(build(key))) report("writer: exists(" + patStr(key) + ") false while subscribed");
                 sub->unsubscribe();
+                if (key.size() == 3 && r.chance(150)) {
+                    // a handle that went stale: its observer invalidated itself and the delivery purged it, the key is
+                    // still stored. unsubscribe() on it is rejected with an exception, and the router must go on working
+                    // (nobody else ever delivers to a three-level key below this writer's own first level)
+                    // (a second, ordinary subscription keeps the key and its Subject from being shrunk away by another
+                    // writer's wildcard shrink in the meantime: the stale handle still points at that Subject)
+                    int calls = 0, keepCalls = 0;
+                    USubscription keep = router->subscribe(build(key), [&keepCalls]() { ++keepCalls; });
+                    USubscription once = router->subscribe(build(key), [&calls](tulz::Observer<>::SelfView self) { ++calls; self->invalidate(); });
+                    size_t r1 = router->notify(build(key)), r2 = router->notify(build(key));
+                    bool valid = once->isValid(), rejected = false;
+                    try { once->unsubscribe(); } catch (const std::invalid_argument &) { rejected = true; }
+                    if (calls != 1 || keepCalls != 2 || r1 != 1 || r2 != 1 || valid || !rejected)
+                        report("self-invalidating observer at " + patStr(key) + ": called " + std::to_string(calls) + " time(s) in two notifications, its neighbour " + std::to_string(keepCalls) +
+                               " time(s) (returned " + std::to_string(r1) + " and " + std::to_string(r2) + "), handle valid afterwards: " + std::to_string(valid) +
+                               ", unsubscribe() of the stale handle rejected: " + std::to_string(rejected));
+                    keep->unsubscribe();
+                    stale.fetch_add(1, std::memory_order_relaxed);
+                }
                 unsigned q = (unsigned) r.below(4);
                 if (q == 0) router->shrink(build({w, -1, -1}));
                 else if (q == 1) router->shrink(build({-1, -1, -1}));
@@ -668,6 +687,7 @@ void runFastCase(uint64_t c, rt::Rng rng) {
     C.fastCases++;
     C.fastOps += ops.load();
     C.fastThrows += thrown.load();
+    C.fastStale += stale.load();
     if (bad.load()) fail("wrong-result-under-concurrency", "fast-churn", firstBad + " (" + std::to_string(bad.load()) + " wrong results)");
     else {
         rt::Hash h;
@@ -704,7 +724,7 @@ int main(int argc, char **argv) {
                    .kv("callbacks", C.callbacks).kv("subscribes", C.subscribes).kv("unsubscribes", C.unsubscribes).kv("shrinks", C.shrinks).kv("existsCalls", C.existsCalls)
                    .kv("depthCalls", C.depthCalls).kv("writesOverlappingNotify", C.writesOverlappingNotify).kv("snapshotsJudged", C.snapshotsJudged)
                    .kv("snapshotsWithConcurrentWrite", C.snapshotsWithConcurrentWrite).kv("missedObserversJudged", C.missedJudged).kv("maxThreads", C.maxThreads)
-                   .kv("fastChurnCases", C.fastCases).kv("fastChurnOperations", C.fastOps).kv("deliveriesEndedByException", C.fastThrows).kv("linHistories", C.linHistories).kv("linOperations", C.linOps).kv("linSearchNodes", C.linNodes).kv("linInconclusive", C.linInconclusive).kv("linHistoriesWithOverlap", C.linWithOverlap).kv("nontrivialCases", C.nontrivialCases).kv("delaysInjected", k.afterWake.load() + k.condEntry.load() + k.beforeLock.load() + k.afterUnlock.load() + k.beforeNotify.load())
+                   .kv("fastChurnCases", C.fastCases).kv("fastChurnOperations", C.fastOps).kv("deliveriesEndedByException", C.fastThrows).kv("staleHandleUnsubscribesRejected", C.fastStale).kv("linHistories", C.linHistories).kv("linOperations", C.linOps).kv("linSearchNodes", C.linNodes).kv("linInconclusive", C.linInconclusive).kv("linHistoriesWithOverlap", C.linWithOverlap).kv("nontrivialCases", C.nontrivialCases).kv("delaysInjected", k.afterWake.load() + k.condEntry.load() + k.beforeLock.load() + k.afterUnlock.load() + k.beforeNotify.load())
                    .kv("lockParks", k.watchedCondWaits.load()).raw("samples", rt::jsonArray(C.samples, false)));
     return 0;
 }
